@@ -85,10 +85,17 @@ Definition obs_vec (L : list param) (s : nat) (w : world) : obs :=
       end
   end.
 
+(* a default-constructed vector: no memory, value-initialised members *)
+Definition vec_default (L : list param) : vec :=
+  {| v_cap := 0; v_bid := None; v_units := 0; v_aid := 0; v_mem := mfill 0;
+     v_fixed := map (fun _ => 0) (filter is_fixed L);
+     v_count := 0; v_stride := snd (esize L (map (fun _ => 0) (filter is_fixed L)));
+     v_tbl := tbl0; v_last := 0 |}.
+
 (* the moved-from state (defaulted member-wise move of max_element_count_, the owning
    pointer (allocator.hpp:88-91,154) and the locator) *)
 Definition moved_from (v : vec) : vec :=
-  {| v_cap := v_cap v; v_bid := None; v_units := v_units v; v_aid := v_aid v; v_mem := v_mem v;
+  {| v_cap := v_cap v; v_bid := None; v_units := 0; v_aid := v_aid v; v_mem := v_mem v;
      v_fixed := v_fixed v; v_count := 0; v_stride := v_stride v; v_tbl := tbl0; v_last := v_last v |}.
 
 (* copy construction (vector.hpp:127-130, 521-527; allocator.hpp:82-86) *)
@@ -112,8 +119,11 @@ Definition aap_copy_assign (K : akind) (L : list param) (d src : vec) (nb : nat)
   else
     let a := if pocca K then v_aid src else v_aid d in
     if (v_units d <? v_units src) || (match v_bid d with None => true | Some _ => false end) then
+      (* the allocator is propagated BEFORE the old block is released (allocator.hpp:117-122);
+         this branch is only reached with equal allocators *)
       (Some nb, v_units src, a, true,
-       dealloc_mem L d ++ [EAlloc a (SA L) (v_units src) nb], S nb)
+       (match v_bid d with Some b => [EDealloc a (SA L) (v_units d) b] | None => [] end)
+         ++ [EAlloc a (SA L) (v_units src) nb], S nb)
     else (v_bid d, v_units d, a, false, [], nb).
 
 (* copy_assign (vector.hpp:529-538) *)
@@ -150,11 +160,14 @@ Definition move_assign (K : akind) (L : list param) (d src : vec) (junk : mem) (
     let tab := has_varying L in
     if consumption L d <? consumption L src then
       let bid := nb in let tbid := S nb in
-      let ea := EAlloc (v_aid d) (SA L) (v_units src) bid ::
+      (* known finding (C05): memory_consumption() BYTES are passed where storage UNITS are
+         expected (vector.hpp:497), so the new block is SA times larger than the source's *)
+      let nu := consumption L src in
+      let ea := EAlloc (v_aid d) (SA L) nu bid ::
                 (if tab then [EAlloc (v_aid d) 8 (v_cap src) tbid] else []) in
       let '(d1, e1) := if all_triv L then (d, []) else destruct_range L d 0 (Z.to_nat (vsize L d)) in
       let '(src1, m, e2) := insert_into true false L src bid junk in
-      ({| v_cap := v_cap src; v_bid := Some bid; v_units := v_units src; v_aid := v_aid d; v_mem := m;
+      ({| v_cap := v_cap src; v_bid := Some bid; v_units := nu; v_aid := v_aid d; v_mem := m;
           v_fixed := v_fixed src; v_count := v_count src; v_stride := v_stride src;
           v_tbl := if tab then tbl_relocate (v_tbl src) (v_cap src) tbid else tbl0;
           v_last := v_last src |}, src1,
@@ -190,7 +203,7 @@ Definition step (K : akind) (L : list param) (w : world) (o : op) : world :=
       let w1 := setv w s (Some v) e (if has_varying L then S (S nb) else S nb) in
       emit w1 [obs_vec L s w1]
   | OpDefault s =>
-      let w1 := setv w s (Some vec0) [] nb in emit w1 [obs_vec L s w1]
+      let w1 := setv w s (Some (vec_default L)) [] nb in emit w1 [obs_vec L s w1]
   | OpEmplace s vals =>
       let '(v, e) := emplace_back L (getv w s) vals in
       let w1 := setv w s (Some v) e nb in emit w1 [obs_vec L s w1]
